@@ -5,6 +5,7 @@ op tuples:
   ('P', k) positions        ('D', k) displacements      ('C', k) cumulative displacements
   ('R', k) squared distances from base position         ('B', k) base positions
   ('F', k, mask) filter -> new object                   ('S', k, a, b, c) slice -> new object
+  ('I', k, a, b, c, kind) the same frames selected with a list / integer array of indices (kind 'list' | 'array'); model op S
   ('E', k, j) extend k by j                             ('Y', k, mask) drift   ('X', k, mask) drift-corrected -> new object
   ('M', k) mean squared displacement (algorithm and definition)
   ('Q', k, what) read-only analysis query on the implementation only (volume / metrics / msd):
@@ -48,7 +49,7 @@ def model_line(lattice, objs, ops) -> str:
             toks.append(f'{t} {op[1]}')
         elif t in 'FYX':
             toks.append(f'{t} {op[1]} {enc_mask(op[2])}')
-        elif t == 'S':
+        elif t in 'SI':
             toks.append(f'S {op[1]} {enc_opt(op[2])} {enc_opt(op[3])} {enc_opt(op[4])}')
         elif t == 'E':
             toks.append(f'E {op[1]} {op[2]}')
@@ -123,6 +124,12 @@ def run_impl(lattice, objs, species, ops):
                     trajs.append(None)
                     sp_of.append(sp_of[k])
                     segs.append(('S', 'err'))
+            elif t == 'I':
+                idx = list(range(len(tr)))[slice(op[2], op[3], op[4])]
+                new = tr[idx if op[5] == 'list' else np.array(idx)]
+                trajs.append(new)
+                sp_of.append(sp_of[k])
+                segs.append(('S', len(trajs) - 1))
             elif t == 'E':
                 tr.extend(trajs[op[2]])
                 segs.append(('E', 'ok'))
